@@ -298,10 +298,13 @@ def _literal(e: ast.AST, names_ok: bool = True) -> bool:
         return True
     if isinstance(e, (ast.Tuple, ast.List, ast.Set)):
         # a display of literals, or of plain (dotted) names - classes, enum members - collected under one constant name
-        return all(_literal(x, False) or (names_ok and _is_chain(x)) for x in e.elts)
+        return all(_literal(x, names_ok) or (names_ok and _is_chain(x)) for x in e.elts)
     if isinstance(e, ast.Call) and isinstance(e.func, ast.Name) and e.func.id in ('frozenset', 'tuple', 'set') and len(e.args) <= 1 \
             and not e.keywords:
         return all(_literal(x) for x in e.args)
+    if isinstance(e, ast.Call) and isinstance(e.func, ast.Name) and e.func.id == 'type' and len(e.args) == 1 \
+            and isinstance(e.args[0], ast.Constant) and e.args[0].value is None:
+        return True         # type(None)
     if isinstance(e, ast.JoinedStr):
         return all(isinstance(v, ast.Constant) for v in e.values)
     if isinstance(e, ast.BinOp) and isinstance(e.op, ast.Add):
